@@ -43,9 +43,13 @@ struct Log
     size_t max_events = 2000000;
     bool overflow = false;
     long ctxmut = 0;
-    void add(Event&& e) { if (ev.size() < max_events) ev.emplace_back(std::move(e)); else overflow = true; }
+    // machine-stack positions at which the library called out (functors, stream): parse() is a loop, so the distance between
+    // the shallowest and the deepest call-out of one parse does not depend on the input
+    const char* sp_lo = nullptr; const char* sp_hi = nullptr;
+    void note_sp(const char* p) { if (!sp_lo || p < sp_lo) sp_lo = p; if (!sp_hi || p > sp_hi) sp_hi = p; }
+    void add(Event&& e) { char probe = 0; note_sp(&probe); if (ev.size() < max_events) ev.emplace_back(std::move(e)); else overflow = true; }
     std::vector<long> zdone;    // offsets at which a zero-length term was handed to its functor (= shifted)
-    void reset() { ev.clear(); cur.clear(); next_id = 0; base = nullptr; base_len = 0; overflow = false; ctxmut = 0; zdone.clear(); }      // (object ids keep counting: objects may outlive a job)
+    void reset() { ev.clear(); cur.clear(); next_id = 0; base = nullptr; base_len = 0; overflow = false; ctxmut = 0; zdone.clear(); sp_lo = sp_hi = nullptr; }      // (object ids keep counting: objects may outlive a job)
 };
 inline thread_local Log tl_log;
 
@@ -371,12 +375,17 @@ struct checked_buffer
 template<int NTerms>
 struct byte_lexer
 {
+    // working data of ONE call, kept in members as a hand-written scanner keeps its cursor: written, then read.  A lexer
+    // object that several calls share (threads!) shows as a data race under ThreadSanitizer and as `lexshared` events
+    long w_avail = 0, w_guard = 0;
     template<typename Iterator, typename ErrorStream>
     ctpg::recognized_term match(ctpg::match_options, ctpg::source_point sp, Iterator start, Iterator end, ErrorStream&)
     {
         auto& L = tl_log;
-        long avail = 0;
-        for (Iterator i = start; !(i == end); ++i) ++avail;
+        w_avail = 0; w_guard = reinterpret_cast<long>(&L);
+        for (Iterator i = start; !(i == end); ++i) ++w_avail;
+        long avail = w_avail;
+        if (w_guard != reinterpret_cast<long>(&L)) { Event e; e.k = "lexshared"; L.add(std::move(e)); }
         long off = long(L.base_len) - avail;
         { Event e; e.k = "lexcall"; e.a = { off, long(sp.line), long(sp.column), avail }; L.add(std::move(e)); }
         if (avail == 0) { Event e; e.k = "lexcall_at_end"; L.add(std::move(e)); return ctpg::recognized_term{}; }
@@ -671,6 +680,7 @@ void run_job_impl(const P& p, const Job& j, const std::string& gid, std::string&
     out += ",\"threw\":"; jstr(out, threw);
     out += ",\"partial\":"; jstr(out, L.cur);
     out += ",\"overflow\":"; out += L.overflow ? "true" : "false";
+    out += ",\"stackspan\":" + std::to_string(long(L.sp_hi - L.sp_lo));
     out += ",\"stream_text\":"; jstr(out, stream_text);
     std::string treejson = "null";
     if (res.has_value()) { treejson.clear(); jtree(treejson, res->t); }
@@ -801,7 +811,9 @@ int gen_main(Make&& make, const char* gid, int argc, char** argv)
         auto jobs = read_jobs(argv[1]);
         FILE* out = fopen(argv[2], "w");
         if (!out) { perror("out"); rc = 2; return; }
-        serve_one(make, gid, jobs, out);
+        const char* thr = getenv("VERIF_THREADS");
+        if (thr) serve_threads(make, gid, jobs, out, atoi(thr));
+        else serve_one(make, gid, jobs, out);
         fclose(out);
     });
     return rc;
